@@ -80,6 +80,9 @@ def _all_pairs_sequence(M, rng):
 def gen_case(run_seed: int, index: int, tier: str) -> dict:
     rng = core.rng_for(run_seed)
     scheme = rng.choice(["bpsk", "qpsk", "psk", "qam", "pam", "identity", "dpsk", "dpsk", "oqpsk", "oqpsk", "pi4qpsk", "pi4qpsk"])
+    very_long = index % 2500 == 5  # one very long random sequence per 2500 runs
+    if very_long:
+        scheme = rng.choice(["qam", "qam", "psk", "pam"])
     mod = C.gen_mod_spec(rng, [scheme])
     case = {"mod": mod, "via_registry": rng.random() < 0.25}
     try:
@@ -124,6 +127,13 @@ def gen_case(run_seed: int, index: int, tier: str) -> dict:
             syms = [rng.randrange(M) for _ in range(rng.choice([2, 3, 4, 7, 16, 33, 64, 200]))]
         seqs.append(_bits_for_symbols(syms, bps))
     L = min(len(s) for s in seqs)
+    if very_long:
+        # longer than any internal table / block size that scales as 2**24 / order
+        nlong = min((1 << 24) // M + rng.choice([1000, 4464]), 4_300_000)
+        case["pre"] = []
+        case["check"] = {"layout": rng.choice(["1d", "2d"]), "kind": "very_long", "long_seed": rng.randrange(1 << 31), "nsym": nlong, "bits": None,
+                         "dtype": "float32", "noncontig": False}
+        return case
     case["check"] = {"layout": layout, "kind": kind, "bits": [s[:L] for s in seqs],
                      "dtype": rng.choice(["float32", "float32", "float64", "int64"]), "noncontig": rng.random() < 0.2}
     return case
@@ -164,7 +174,8 @@ def execute(case: dict) -> RunResult:
         for k in ("order", "gray"):
             if k in spec:
                 sig[k] = spec[k]
-        res.violations.append(Violation(sig, f"C05: {C.mod_name(spec)} ({'registry' if case['via_registry'] else 'direct'}), layout {chk['layout']}, {chk['kind']} sequence of {len(chk['bits'][0]) // bps} symbols after a pre-history of {len(case['pre'])} ops: {msg}"))
+        nsy = chk.get("nsym") or len(chk["bits"][0]) // bps
+        res.violations.append(Violation(sig, f"C05: {C.mod_name(spec)} ({'registry' if case['via_registry'] else 'direct'}), layout {chk['layout']}, {chk['kind']} sequence of {nsy} symbols after a pre-history of {len(case['pre'])} ops: {msg}"))
 
     try:
         mod, demod = C.build_modem(spec, case["via_registry"])
@@ -205,6 +216,10 @@ def execute(case: dict) -> RunResult:
     mod.eval()
     demod.eval()
     rows = chk["bits"]
+    if rows is None:  # very long sequence: derived from the case's seed (too long to list)
+        gl = torch.Generator().manual_seed(chk["long_seed"])
+        rows = [torch.randint(0, 2, (chk["nsym"] * bps,), generator=gl).tolist()]
+        res.probes["very_long_sequence_cases"] += 1
     nbits = len(rows[0])
     nsym = nbits // bps
     x = torch.tensor(rows, dtype={"float32": torch.float32, "float64": torch.float64, "int64": torch.int64}[chk.get("dtype", "float32")])
@@ -227,11 +242,23 @@ def execute(case: dict) -> RunResult:
         class _Tap(PerfectChannel):
             def forward(self, t, *a, **k):
                 tap.append(t.detach().clone())
+                tap.append(t)  # the very tensor the demodulator is given
                 return super().forward(t, *a, **k)
 
         with torch.no_grad():
             out = SequentialModel([mod, _Tap(), demod])(x)
         sym = tap[0]
+        if not torch.equal(tap[1], tap[0]):
+            violate("symbols_modified", "the demodulator modified the received symbol tensor it was given")
+        elif nbits <= 20000 and scheme in MEMORY + ("qpsk", "psk", "qam", "pam", "bpsk"):
+            # a second receiver listening to the same symbols must hear the same bits
+            _, demod2 = C.build_modem(spec, case["via_registry"])
+            demod2.eval()
+            demod2.reset_state()
+            with torch.no_grad():
+                out2 = demod2(tap[1])
+            if out2.shape != out.shape or not torch.equal(out2.to(torch.float64), out.to(torch.float64)):
+                violate("second_receiver", "a second, fresh demodulator given the same symbols returned different bits")
     except Exception as e:
         violate(f"exception:{type(e).__name__}", f"raised {type(e).__name__}: {str(e)[:160]}")
         res.digest, res.n_events = log.digest(), len(log)
@@ -262,7 +289,7 @@ def shrink_key(sig):
 
 
 def shrink_candidates(case: dict):
-    if "inadmissible" in case:
+    if "inadmissible" in case or case["check"].get("bits") is None:
         return
     for cand in list_ddmin(case["pre"]):
         c = copy.deepcopy(case)
